@@ -402,7 +402,7 @@ Section Case.
     end.
 
   (** the model's prediction of the observation *)
-  Definition compare (st : bool) (vv : res cvars) (am : res (list (name * gval))) : option sexp :=
+  Definition compare (ran_of : list (name * gval) -> bool) (st : bool) (vv : res cvars) (am : res (list (name * gval))) : option sexp :=
     let exp_static := if st then VOk else VReject in
     let '(exp_exec, exp_calls, exp_ran) :=
       if negb st then (VNone, [], false)
@@ -411,7 +411,7 @@ Section Case.
            | Err => (VReject, [], false)
            | Ok _ =>
                match am with
-               | Ok m => (VOk, [m], negb site_field)
+               | Ok m => (VOk, [m], ran_of m)
                | Err => (VReject, [], false)     (* field: field error; directive: reported by collectFields, selection left out *)
                | Panic => (VPanic, [], false)
                end
@@ -427,13 +427,14 @@ Section Case.
     else None.
 
   (** evidence classes *)
-  Definition classes (st : bool) (vv : res cvars) (am : res (list (name * gval)))
+  Definition classes (builtin : bool) (st : bool) (vv : res cvars) (am : res (list (name * gval)))
              (ref : option (list (name * gval))) : list string :=
     let nested := existsb (fun a => match snd a with LVar _ => false | l => match lit_vars l with [] => false | _ => true end end) args in
     let top_var := existsb (fun a => match snd a with LVar _ => true | _ => false end) args in
     let has_default := existsb (fun ad => match in_default (snd ad) with Some _ => true | None => false end) argdefs in
     let var_default := existsb (fun d => match vd_default d with Some _ => true | None => false end) defs in
     (if site_field then ["site-field"] else ["site-directive"]) ++
+    (if builtin then ["site-skip-include"] else []) ++
     (if st then [] else ["static-reject"]) ++
     (if st then match vv with
                 | Ok v => match am with
@@ -473,6 +474,13 @@ Definition check (c : sexp) : sexp :=
                 map_opt (dec_named dec_lit) ars, map_opt (dec_named dec_jval) vs, map_opt dec_dt_entry ts, dec_observed obs with
           | Some E, Some argdefs, Some defs, Some args, Some raw, Some T, Some o =>
               let site_field := String.eqb site "field" in
+              (* whether the field guarded by the directive runs: @flt always lets it through, the
+                 built-in @include / @skip (schema.IncludeDirective / SkipDirective) decide on "if" *)
+              let if_value := fun m : list (name * gval) => match aget [105; 102]%N m with Some (GBool b) => b | _ => true end in
+              let ran_of := fun m : list (name * gval) =>
+                              if String.eqb site "include" then if_value m
+                              else if String.eqb site "skip" then negb (if_value m)
+                              else negb site_field in
               let strings := flat_map (fun a => lit_strings (snd a)) args
                              ++ flat_map (fun d => match vd_default d with Some l => lit_strings l | None => [] end) defs
                              ++ flat_map (fun p => jval_strings (snd p)) raw in
@@ -503,9 +511,9 @@ Definition check (c : sexp) : sexp :=
                     match oracle_cost E argdefs args raw o with
                     | Some v => v
                     | None =>
-                        match compare site_field o st vv am with
+                        match compare site_field o ran_of st vv am with
                         | Some v => v
-                        | None => v_ok (classes E T site_field argdefs defs args raw o st vv am ref_am)
+                        | None => v_ok (classes E T site_field argdefs defs args raw o (String.eqb site "include" || String.eqb site "skip") st vv am ref_am)
                         end
                     end
                 end
